@@ -146,6 +146,28 @@ def render(c, d):
                 sub(body, "nested")[key] = val
             else:
                 sub(sub(body, "table"), "rowa")[key] = val
+    # "any subset of their settings written": the list-valued settings of the telemetry sections, in both schema generations
+    # the section's decoder accepts (v0.2.0: otlp headers as a map; v0.3.0: as a name/value list).  They are valid settings
+    # next to whatever else the document writes in the section, so they change nothing about which keys are accepted, which
+    # are unknown and what the scalar settings decode to (seeded change C13-6: a schema-fallback that forgot the errors of the
+    # section's other keys once the list decoded).
+    if c.rng.random() < 0.5:
+        tel = svc.get("telemetry")
+        if isinstance(tel, dict) or c.rng.random() < 0.3:
+            if not isinstance(tel, dict):
+                tel = svc["telemetry"] = {}
+            gen = c.rng.choice(["v2", "v3"])
+            hdr = {"key1": "value1"} if gen == "v2" else [{"name": "key1", "value": "value1"}]
+            otlp = {"otlp": {"protocol": "http/protobuf", "endpoint": "http://127.0.0.1:4317", "headers": hdr}}
+            for sect, key, items in (("logs", "processors", [{"batch": {"exporter": otlp}}, {"simple": {"exporter": {"console": {}}}}]),
+                                     ("metrics", "readers", [{"periodic": {"exporter": otlp}}, {"pull": {"exporter": {"prometheus": {"host": "127.0.0.1", "port": 8902}}}}])):
+                if isinstance(tel.get(sect), dict) or c.rng.random() < 0.3:
+                    if not isinstance(tel.get(sect), dict):
+                        if tel.get(sect) is not None:
+                            continue
+                        tel[sect] = {}
+                    if key not in tel[sect]:
+                        tel[sect][key] = [c.rng.choice(items)] if c.rng.random() < 0.5 else list(items)
     return json.dumps(doc), doc
 
 
